@@ -118,7 +118,7 @@ class Pool:
         return total, ok, bad
 
 
-def run_tlc_export(name, module, cfgpath, outdir, tier, asan_stride, tlc_workers=None, timeout=3000, max_scripts=None, simulate=None):
+def run_tlc_export(name, module, cfgpath, outdir, tier, asan_stride, tlc_workers=None, timeout=3000, max_scripts=None, simulate=None, stride=1):
     """Run TLC on module/cfg, stream every exported behaviour into plain (all) and
     sanitizer (every asan_stride-th) driver pools built from the working tree."""
     exe_plain = vlib.build_driver("plain")
@@ -138,6 +138,7 @@ def run_tlc_export(name, module, cfgpath, outdir, tier, asan_stride, tlc_workers
     tlc = subprocess.Popen(cmd, stdout=subprocess.PIPE, stderr=subprocess.STDOUT, cwd=SPEC, bufsize=1 << 20)
     log = []
     nscripts = 0
+    nsent = 0
     samples = []
     try:
         for line in tlc.stdout:
@@ -146,10 +147,13 @@ def run_tlc_export(name, module, cfgpath, outdir, tier, asan_stride, tlc_workers
                     log.append(b"MALFORMED-BEH " + line[:100] + b"\n")
                     continue
                 nscripts += 1
+                if stride > 1 and (nscripts + SEED) % stride != 0:
+                    continue  # quick tier: replay a seeded 1-in-stride sample of the exported transitions
+                nsent += 1
                 pool.send(line)
-                if nscripts % asan_stride == 0:
+                if nsent % asan_stride == 0:
                     apool.send(line)
-                if len(samples) < 3 and nscripts % 997 == 5:
+                if len(samples) < 3 and nsent % 997 == 5:
                     samples.append(line)
                 if max_scripts and nscripts >= max_scripts:
                     tlc.kill()
@@ -176,12 +180,13 @@ def run_tlc_export(name, module, cfgpath, outdir, tier, asan_stride, tlc_workers
         raise Infra("TLC error in %s: %s\n%s" % (name, st["error"], text[-1500:]))
     total, ok, bad = pool.results()
     atotal, aok, abad = apool.results()
-    if total != nscripts:
-        raise Infra("driver pool lost scripts: sent %d, verdicts %d" % (nscripts, total))
+    if total != nsent:
+        raise Infra("driver pool lost scripts: sent %d, verdicts %d" % (nsent, total))
     for b in abad:
         b["flavor"] = "asan"
     res = {"family": name, "tlc": st, "scripts": nscripts, "replayed": total + atotal, "ok": ok + aok, "bad": bad + abad,
-           "samples": [unescape_beh(s) for s in samples], "wall_tlc": time.time() - t0, "asan_replayed": atotal}
+           "samples": [unescape_beh(s) for s in samples], "wall_tlc": time.time() - t0, "asan_replayed": atotal,
+           "replay_stride": stride}
     return res
 
 
@@ -340,7 +345,7 @@ def known_match(prop, div, known):
 # families
 # --------------------------------------------------------------------------------------
 def fam_stop(tier, outdir):
-    consts = {"Handles": "{1}", "MaxTime": 5, "MaxCalls": 4, "PipeCap": 2, "MaxOut": 0, "ExitCodes": "{3}", "TermDelay": 1,
+    consts = {"Handles": "{1}", "MaxTime": 5, "MaxCalls": 4, "PipeCap": 4, "MaxOut": 0, "ExitCodes": "{3}", "TermDelay": 1,
               "DlOpts": "{0, 2}", "Timeouts": "{0, 2}", "MaxStops": 1, "ThirdActs": '"Small"'}
     if tier == "thorough":
         consts.update({"MaxTime": 6, "MaxCalls": 5, "Timeouts": "{0, 2, 3}", "MaxStops": 2, "ThirdActs": '"All"'})
@@ -349,12 +354,36 @@ def fam_stop(tier, outdir):
     return run_tlc_export("stop", "MC_Stop", cfg, outdir, tier, asan_stride=16 if tier == "quick" else 4)
 
 
-FAMILIES = {"stop": fam_stop}
+def fam_life(tier, outdir):
+    consts = {"Handles": "{1}", "MaxTime": 1, "MaxCalls": 5, "PipeCap": 4, "MaxOut": 2, "ExitCodes": "{3}", "TermDelay": 1,
+              "Depth": '"small"'}
+    if tier == "thorough":
+        consts.update({"MaxCalls": 6, "Depth": '"full"', "MaxTime": 2})
+    cfg = os.path.join(outdir, "MC_Life.cfg")
+    write_cfg(cfg, "Spec", consts, ["TypeOK", "LifeChild", "Conservation"], props=["LifeOrder"])
+    return run_tlc_export("life", "MC_Life", cfg, outdir, tier, asan_stride=4 if tier == "quick" else 2)
+
+
+def fam_poll(tier, outdir):
+    consts = {"Handles": "{1, 2}", "MaxTime": 3, "MaxCalls": 6, "PipeCap": 4, "MaxOut": 1, "ExitCodes": "{3}", "TermDelay": 1,
+              "DlOpts": "{0, 2}", "Timeouts": "{0, 2}", "Masks": "{10, 15}", "MaxSrc": 2, "MaxPolls": 1}
+    if tier == "thorough":
+        consts.update({"Timeouts": "{0, 1, 3}", "Masks": "{2, 10, 15, 0, 31}", "MaxSrc": 3, "MaxPolls": 2, "MaxCalls": 7})
+    cfg = os.path.join(outdir, "MC_Poll.cfg")
+    write_cfg(cfg, "Spec", consts, ["TypeOK", "LifeChild", "PollBounded"])
+    return run_tlc_export("poll", "MC_Poll", cfg, outdir, tier, asan_stride=16 if tier == "quick" else 8, tlc_workers=10,
+                          stride=7 if tier == "quick" else 1)
+
+
+FAMILIES = {"stop": fam_stop, "life": fam_life, "poll": fam_poll}
 
 PROPS = {
     "C01": {"families": ["stop"], "title": "exit status exact, stable, reaped once"},
     "C06": {"families": ["stop"], "title": "only the own unreaped child is signalled or waited for"},
     "C07": {"families": ["stop"], "title": "stop sequences"},
+    "C14": {"families": ["life"], "title": "life cycle; misuse errors, never UB"},
+    "C08": {"families": ["poll"], "title": "deadlines and timeouts bound every wait and poll"},
+    "C09": {"families": ["poll"], "title": "poll reports exactly the true events"},
 }
 
 NOT_APPLICABLE = {}
@@ -450,7 +479,7 @@ def conclude(prop, tier, results, known, outdir, t0):
             "exhaustive": all(not r.get("simulated") for r in results),
             "families": [{"family": r["family"], "states": r["tlc"]["states"], "transitions": r["tlc"]["transitions"],
                           "depth": r["tlc"]["depth"], "scripts_exported": r["scripts"], "replays": r["replayed"],
-                          "replays_sanitized": r["asan_replayed"], "replays_ok": r["ok"],
+                          "replays_sanitized": r["asan_replayed"], "replays_ok": r["ok"], "replay_stride": r["replay_stride"],
                           "divergences": len(r["bad"])} for r in results],
             "foreign_divergence": foreign,
             "known_findings_seen": {k: v[1] for k, v in known_seen.items()},
